@@ -297,3 +297,207 @@ func (r *RUP) Check(c []int) bool {
 	}
 	return false
 }
+
+// counter is a counting DPLL: occurrence lists, per-clause true/false counters, trail-based undo.
+type counter struct {
+	cls           [][]int
+	occ           [][]int // index 2*v for v, 2*v+1 for -v
+	nTrue, nFalse []int
+	val           []int8
+	trail         []int
+	nSat          int
+	n             int
+	budget        int64
+	count, maxCnt uint64
+	overflow      bool
+}
+
+func occIdx(l int) int {
+	if l > 0 {
+		return 2 * l
+	}
+	return -2*l + 1
+}
+
+// assign binds literal l and propagates; returns false on conflict. Everything bound is on the trail.
+func (c *counter) assign(l int) bool {
+	queue := []int{l}
+	for len(queue) > 0 {
+		l = queue[0]
+		queue = queue[1:]
+		v := l
+		if v < 0 {
+			v = -v
+		}
+		want := int8(1)
+		if l < 0 {
+			want = -1
+		}
+		if c.val[v] == want {
+			continue
+		}
+		if c.val[v] == -want {
+			return false
+		}
+		c.val[v] = want
+		c.trail = append(c.trail, l)
+		c.budget--
+		for _, ci := range c.occ[occIdx(l)] {
+			c.nTrue[ci]++
+			if c.nTrue[ci] == 1 {
+				c.nSat++
+			}
+		}
+		conflict := false
+		for _, ci := range c.occ[occIdx(-l)] {
+			c.nFalse[ci]++
+			if c.nTrue[ci] > 0 {
+				continue
+			}
+			switch len(c.cls[ci]) - c.nFalse[ci] {
+			case 0:
+				conflict = true
+			case 1:
+				for _, l2 := range c.cls[ci] {
+					v2 := l2
+					if v2 < 0 {
+						v2 = -v2
+					}
+					if c.val[v2] == 0 {
+						queue = append(queue, l2)
+						break
+					}
+				}
+			}
+		}
+		if conflict {
+			return false
+		}
+	}
+	return true
+}
+
+func (c *counter) undoTo(sz int) {
+	for len(c.trail) > sz {
+		l := c.trail[len(c.trail)-1]
+		c.trail = c.trail[:len(c.trail)-1]
+		v := l
+		if v < 0 {
+			v = -v
+		}
+		c.val[v] = 0
+		for _, ci := range c.occ[occIdx(l)] {
+			c.nTrue[ci]--
+			if c.nTrue[ci] == 0 {
+				c.nSat--
+			}
+		}
+		for _, ci := range c.occ[occIdx(-l)] {
+			c.nFalse[ci]--
+		}
+	}
+}
+
+func (c *counter) rec() bool {
+	if c.budget < 0 || c.overflow {
+		return false
+	}
+	if c.nSat == len(c.cls) {
+		free := c.n - len(c.trail)
+		if free >= 40 {
+			c.overflow = true
+			return false
+		}
+		c.count += 1 << uint(free)
+		if c.count > c.maxCnt {
+			c.overflow = true
+			return false
+		}
+		return true
+	}
+	// branch on a literal of a shortest unsatisfied clause
+	pick, best := 0, -1
+	for ci := range c.cls {
+		if c.nTrue[ci] > 0 {
+			continue
+		}
+		if open := len(c.cls[ci]) - c.nFalse[ci]; best < 0 || open < len(c.cls[best])-c.nFalse[best] {
+			best = ci
+			if open <= 2 {
+				break
+			}
+		}
+	}
+	if best >= 0 {
+		for _, l := range c.cls[best] {
+			v := l
+			if v < 0 {
+				v = -v
+			}
+			if c.val[v] == 0 {
+				pick = l
+				break
+			}
+		}
+	}
+	if pick == 0 {
+		panic("ref: counting DPLL found an unsatisfied clause without unbound literal")
+	}
+	for _, l := range []int{pick, -pick} {
+		sz := len(c.trail)
+		if c.assign(l) {
+			if !c.rec() {
+				c.undoTo(sz)
+				return false
+			}
+		}
+		c.undoTo(sz)
+	}
+	return true
+}
+
+// CountCNF counts the models of cnf over n variables. ok is false when the work budget is exhausted or
+// the number of models exceeds maxCount (the caller then has no reference).
+func CountCNF(cnf [][]int, n int, budget int64, maxCount uint64) (count uint64, ok bool) {
+	c := &counter{n: n, val: make([]int8, n+1), occ: make([][]int, 2*n+2), budget: budget, maxCnt: maxCount}
+	var units []int
+	for _, cl := range cnf {
+		seen := map[int]bool{}
+		var d []int
+		taut := false
+		for _, l := range cl {
+			if seen[-l] {
+				taut = true
+			}
+			if !seen[l] {
+				seen[l] = true
+				d = append(d, l)
+			}
+		}
+		if taut {
+			continue
+		}
+		if len(d) == 0 {
+			return 0, true
+		}
+		ci := len(c.cls)
+		c.cls = append(c.cls, d)
+		for _, l := range d {
+			c.occ[occIdx(l)] = append(c.occ[occIdx(l)], ci)
+		}
+		if len(d) == 1 {
+			units = append(units, d[0])
+		}
+	}
+	c.nTrue = make([]int, len(c.cls))
+	c.nFalse = make([]int, len(c.cls))
+	for _, u := range units {
+		if !c.assign(u) {
+			return 0, true
+		}
+	}
+	if !c.rec() {
+		return 0, false
+	}
+	return c.count, true
+}
